@@ -23,16 +23,18 @@ type topo struct {
 
 var topos = []topo{
 	{"C", []string{"c"}, []int{0}},
-	{"F>C", []string{"f", "c"}, []int{0, 1}},         // F02a: fixed quota touched first
+	{"F>C", []string{"f", "c"}, []int{0, 1}},         // fixed quota touched first (F02a, repaired)
 	{"C>F", []string{"f", "c"}, []int{1, 0}},         // concurrent quota touched first
 	{"P/C", []string{"c", "c0"}, []int{1}},           // child limiter, concurrent parent
 	{"P/C/G", []string{"c", "c0", "c1"}, []int{2}},   // three levels
 	{"F>P/C", []string{"f", "c", "c1"}, []int{0, 2}}, // fixed first, then child with parent
 	{"C1>C2", []string{"c", "c"}, []int{0, 1}},       // two independent concurrent quotas in one flow
 	{"C2>C1", []string{"c", "c"}, []int{1, 0}},
-	{"U+C", []string{"c", "c"}, []int{1}},     // an unreferenced concurrent quota: its system Inc is live
-	{"Uf+C", []string{"f", "c"}, []int{1}},    // an unreferenced fixed quota: touched first by its system Inc
-	{"P>C", []string{"c", "c0"}, []int{0, 1}}, // parent limited first, then its child
+	{"U+C", []string{"c", "c"}, []int{1}},               // an unreferenced concurrent quota: its system Inc is live
+	{"Uf+C", []string{"f", "c"}, []int{1}},              // an unreferenced fixed quota: touched first by its system Inc
+	{"P>C", []string{"c", "c0"}, []int{0, 1}},           // parent limited first, then its child
+	{"U+Uf+C", []string{"c", "f", "c"}, []int{2}},       // two unreferenced quotas: both system Incs are live, in file order
+	{"P/C1,C2", []string{"c", "c0", "c0"}, []int{1, 2}}, // two children of one parent, both limited
 }
 
 type gcfg struct {
